@@ -37,7 +37,8 @@ finally:
     subprocess.run(["git", "-C", "/repo", "clean", "-fdq"], check=False)
 d = os.path.join("refactorings", name)
 os.makedirs(d, exist_ok=True)
-shutil.copy(patch, d)
+if os.path.abspath(patch) != os.path.abspath(os.path.join(d, "patch.diff")):
+    shutil.copy(patch, d)
 meta = json.load(open(os.path.join(out, "meta.json"))) if os.path.exists(os.path.join(out, "meta.json")) else {}
 meta["tests_pass_with_it"] = tests_ok
 meta["checks_raising_an_alarm"] = res
